@@ -288,69 +288,50 @@ theorem unpack_order (f : α → α) (xs : List α) (l r : Nat) (starred : Bool)
     apply lookup_of_map
     simp only [List.map_append, hes1', hes2', List.map_nil, List.append_nil]
 
-/-- **C19 (unpacking binds its targets left to right)**: `_assign_array` binds the non-starred
-    targets strictly in pattern order and the starred target last (`assignOrder`; the named probes
-    extracted every run are compared with `emitUnpackNamed`, which uses this order). -/
+/-- **C19 (unpacking binds its targets in pattern order)**: `_assign_array` / `_assign_tuple` bind
+    the targets strictly in pattern order, the starred target in its place (`assignOrder`; the named
+    probes extracted every run — also with the starred name repeated — are compared with
+    `emitUnpackNamed`, which uses this order). -/
 theorem unpack_assign_order (l r : Nat) :
-    assignOrder l r true = (List.range (l + 1 + r)).filter (· ≠ l) ++ [l] ∧
-    assignOrder l 0 false = List.range l :=
+    assignOrder l r true = List.range (l + 1 + r) ∧ assignOrder l 0 false = List.range l :=
   ⟨assignOrder_starred l r, assignOrder_plain l⟩
 
-/-- **C19 (a name on both sides of the star)**: with targets `names` (pattern order: `l` left targets, the
-    starred target at position `l`, `r` right targets; the starred name occurs only once) bound in
-    the order `_assign_array` uses, every name ends up with the wire of its RIGHTMOST occurrence
+/-- **C19 (a name that occurs several times in an unpacking pattern)**: with targets `names` (pattern
+    order: `l` left targets, the starred target at position `l`, `r` right targets; ANY name may be
+    repeated, the starred one included) every name ends up with the wire of its RIGHTMOST occurrence
     — Python's left-to-right binding. -/
 theorem unpack_named_last_wins (names wires : List Nat) (l r t : Nat)
     (hn : names.length = l + 1 + r) (hw : wires.length = names.length) (ht : t < names.length)
-    (hstar : ∀ t', t' < names.length → t' ≠ l → names[t']? ≠ names[l]?)
     (hlast : ∀ t', t < t' → t' < names.length → names[t']? ≠ names[t]?) :
     lookupName (bindTargets names wires (assignOrder l r true)) names[t] = wires[t]? := by
   rw [assignOrder_starred, List.getElem?_eq_getElem (hw ▸ ht)]
-  by_cases htl : t = l
-  · subst htl
-    have := lookup_last_occurrence names wires ((List.range (t + 1 + r)).filter (· ≠ t)) [] t ht (hw ▸ ht)
-      (by simp)
+  have hmem : t ∈ List.range (l + 1 + r) := by simp; omega
+  obtain ⟨pre, post, hsplit⟩ := List.append_of_mem hmem
+  have hinc : (List.range (l + 1 + r)).Pairwise (· < ·) := List.pairwise_lt_range
+  rw [hsplit] at hinc
+  have hgt : ∀ t' ∈ post, t < t' := by
+    have := (List.pairwise_append.mp hinc).2.1
+    exact (List.pairwise_cons.mp this).1
+  have hpost_mem : ∀ t' ∈ post, t' < l + 1 + r := by
+    intro t' ht'
+    have : t' ∈ List.range (l + 1 + r) := by rw [hsplit]; simp [ht']
     simpa using this
-  · have hmem : t ∈ (List.range (l + 1 + r)).filter (· ≠ l) := by
-      simp [List.mem_filter, htl]; omega
-    obtain ⟨pre, post, hsplit⟩ := List.append_of_mem hmem
-    have hinc : ((List.range (l + 1 + r)).filter (· ≠ l)).Pairwise (· < ·) :=
-      List.Pairwise.filter _ List.pairwise_lt_range
-    rw [hsplit] at hinc
-    have hgt : ∀ t' ∈ post, t < t' := by
-      have := (List.pairwise_append.mp hinc).2.1
-      exact (List.pairwise_cons.mp this).1
-    have hpost_mem : ∀ t' ∈ post, t' < l + 1 + r ∧ t' ≠ l := by
-      intro t' ht'
-      have : t' ∈ (List.range (l + 1 + r)).filter (· ≠ l) := by rw [hsplit]; simp [ht']
-      simpa [List.mem_filter] using this
-    have hl : l < names.length := by omega
-    have := lookup_last_occurrence names wires pre (post ++ [l]) t ht (hw ▸ ht) (by
-      intro t' ht'
-      rcases List.mem_append.mp ht' with h | h
-      · obtain ⟨h1, h2⟩ := hpost_mem t' h
-        refine ⟨by omega, by omega, ?_⟩
-        have := hlast t' (hgt t' h) (by omega)
-        rwa [List.getElem?_eq_getElem ht] at this
-      · have : t' = l := by simpa using h
-        subst this
-        refine ⟨hl, by omega, ?_⟩
-        have := hstar t ht htl
-        rw [List.getElem?_eq_getElem ht] at this
-        exact fun e => this e.symm)
-    rw [hsplit]
-    simpa [List.append_assoc] using this
+  have := lookup_last_occurrence names wires pre post t ht (hw ▸ ht) (by
+    intro t' ht'
+    have h1 := hpost_mem t' ht'
+    refine ⟨by omega, by omega, ?_⟩
+    have := hlast t' (hgt t' ht') (by omega)
+    rwa [List.getElem?_eq_getElem ht] at this)
+  rw [hsplit]
+  exact this
 
-
-/-- The hypothesis `hstar` of `unpack_named_last_wins` cannot be dropped: when the STARRED name
-    occurs again to its right (`*a, a = xs`), `_assign_array` (like the checker and `_assign_tuple`)
-    binds the starred target last, so `a` ends up as the starred array (wire 5) whereas Python,
-    binding left to right, leaves `a` = the last element (wire 6).  Known deviation of /repo (the
-    program is rejected with a type error when `a` is then used as an element), see notes/C19.md. -/
-theorem unpack_named_last_wins_needs_hstar :
+/-- regression: with the order used before 535d821 (starred target bound LAST, `assignOrderOld`)
+    the statement above is false — witness `*a, a = xs` (names [0, 0]): `a` ended up as the starred
+    array (wire 5) whereas Python leaves the last element (wire 6). -/
+theorem unpack_named_old_order_deviates :
     ¬ (∀ (names wires : List Nat) (l r t : Nat), names.length = l + 1 + r → wires.length = names.length →
         t < names.length → (∀ t', t < t' → t' < names.length → names[t']? ≠ names[t]?) →
-        lookupName (bindTargets names wires (assignOrder l r true)) names[t]! = wires[t]?) := by
+        lookupName (bindTargets names wires (assignOrderOld l r true)) names[t]! = wires[t]?) := by
   intro h
   have := h [0, 0] [5, 6] 0 1 1 rfl rfl (by decide) (by intro t' h1 h2; simp at h2; omega)
   revert this
@@ -450,10 +431,11 @@ example : lookupName (bindTargets [0, 100, 0] [5, 6, 7] (assignOrder 1 1 true)) 
 /-- the hypotheses of `unpack_named_last_wins` are satisfiable: `x, *r, x` with t = the right `x` -/
 example : lookupName (bindTargets [0, 100, 0] [5, 6, 7] (assignOrder 1 1 true)) ([0, 100, 0][2]) = [5, 6, 7][2]? :=
   unpack_named_last_wins [0, 100, 0] [5, 6, 7] 1 1 2 rfl rfl (by decide)
-    (by intro t' h1 h2; have : t' = 0 ∨ t' = 2 := by simp at h1; omega
-        rcases this with rfl | rfl <;> decide)
     (by intro t' h1 h2; simp at h2; omega)
-example : assignOrder 2 2 true = [0, 1, 3, 4, 2] := by decide
+/-- `*a, a = xs`: the right `a` wins now -/
+example : lookupName (bindTargets [0, 0] [5, 6] (assignOrder 0 1 true)) 0 = some 6 := by decide
+example : assignOrder 2 2 true = [0, 1, 2, 3, 4] := by decide
+example : assignOrderOld 2 2 true = [0, 1, 3, 4, 2] := by decide
 example : pyUnpack [1, 2, 3, 4, 5] 1 2 = ([1], [2, 3], [4, 5]) := by decide
 example : drain true 4 ⟨ofList [10, 20, 30], 0⟩ = .ok (some [10, 20, 30]) := by rfl
 example : runComp (emitCompLoop 2) (· + 1) 3 (ofList [10, 20]) = .ok (some (vArr (ofList [11, 21]))) := by
